@@ -108,11 +108,25 @@ def _ptype_of(params, k):
     return m.group(1) if m else None
 
 
-def viewflat_rule(rep, mod, results, tagD, D, fam, ops=None):
-    """A view (subarray / const_subarray: arbitrary strides) is traversed through its iterators.  An element primitive that is handed the raw base
-    pointer of a view operand walks the storage in memory order, which is the view's canonical order only for a contiguous row-major layout; the
-    library has no predicate that establishes that for D > 1 (is_compact() / nelems() == num_elements() only exclude gaps, the leading stride says nothing
-    about the inner ones).  Accepted: D = 1 on a path that fixes unit stride (stride() == 1, or is_compact())."""
+def _flat_guard_ok(D, k, true_conds):
+    """does the path establish that the memory order of view parameter k is its canonical element order?  Accepted idioms (each read off the atom's
+    term, for that parameter): D = 1 and stride == 1 (or is_compact(), which for one dimension says the same); any D: the view's layout equals the
+    canonical layout built from its own extensions (layout == layout_type(extensions()))."""
+    me = "('param', %d)" % k
+    for c in true_conds:
+        if me not in c:
+            continue
+        others = set(re.findall(r"\('param', (\d+)\)", c)) - {str(k)}
+        if D == 1 and not others and ((c.startswith("('cmp', 'eq'") and c.rstrip(")").endswith("('c', 1")) or "is_compact() const" in c):
+            return True
+        if not others and "operator==(layout_t const&, layout_t const&)" in c and "layout_t::layout_t(extensions_t const&)" in c and "extensions() const" in c:
+            return True
+    return False
+
+
+def viewflat_scan(mod, results, D, ops=None):
+    """{operation: [problem texts]} for every operation with a view operand (see viewflat_rule)"""
+    out = {}
     for n, traces in sorted(results.items()):
         if ops is not None and n not in ops:
             continue
@@ -129,30 +143,55 @@ def viewflat_rule(rep, mod, results, tagD, D, fam, ops=None):
                     pass
         if not views:
             continue
-        key = "%s@%s" % (fam, n)
         bad = []
         for r in traces:
             if r["outcome"] != "ret":
                 continue
+            true_conds = [repr(c) for c, v in r["pc"].items() if v]
             for e in r["events"]:
                 if e[0] not in ("construct", "assign") or len(e) < 4:
                     continue
+                hits = set()
                 for a_ in e[3]:
                     sa = typestate.strip(a_)
-                    hit = [k for k, off in views.items() if sa == ("init", ("param", k), off) or sa == ("gep", ("init", ("param", k), off))]
-                    if not hit:
-                        continue
-                    true_conds = [repr(c) for c, v in r["pc"].items() if v]
-                    unit = D == 1 and any(("stride() const" in c and "('c', 1)" in c) or "is_compact() const" in c for c in true_conds)
-                    if not unit:
+                    hits |= {k for k, off in views.items() if sa == ("init", ("param", k), off) or sa == ("gep", ("init", ("param", k), off))}
+                for k in sorted(hits):
+                    if not _flat_guard_ok(D, k, true_conds):
                         conds = sorted(typestate.short_t(c, 60) + ("" if v else " [false]") for c, v in r["pc"].items())
-                        bad.append("%s is handed the raw base pointer of the view (parameter %d): the elements are walked in memory order (path conditions: %s)"
-                                   % (str(e[1])[-30:], hit[0], "; ".join(conds)[:240]))
-                    break
+                        bad.append("%s is handed the raw base pointer of the view (parameter %d): the elements are walked in memory order, and no condition of the "
+                                   "path makes that the view's element order (path conditions: %s)" % (str(e[1])[-30:], k, "; ".join(conds)[:240]))
+        out[n] = sorted(set(bad))
+    return out
+
+
+def viewflat_rule(rep, mod, results, tagD, D, fam, ops=None):
+    """A view (subarray / const_subarray: arbitrary strides) is traversed through its iterators.  An element primitive that is handed the raw base
+    pointer of a view operand walks the storage in memory order, which is the view's canonical order only for a contiguous row-major layout.
+    Accepted guards: see _flat_guard_ok.  The pinned tree has no such traversal at all; a control operation of the driver keeps the rule armed."""
+    for n, bad in viewflat_scan(mod, results, D, ops).items():
+        op = mod.ops[n]
+        key = "%s@%s" % (fam, n)
         if bad:
-            rep.violated(key, fam, "%s (%s): %s" % (op["body"], tagD, sorted(set(bad))[0]), dict(op=n, problems=sorted(set(bad))[:3]))
+            rep.violated(key, fam, "%s (%s): %s" % (op["body"], tagD, bad[0]), dict(op=n, problems=bad[:3]))
         else:
             rep.ok(key + "#" + tagD, fam, None)
+
+
+def viewflat_control(rep, mod, D, fam):
+    """positive and negative controls of the rule: an unguarded raw traversal written in the driver must be recognised, the same traversal under an
+    accepted guard must not be"""
+    sel = [n for n in mod.ops if n.startswith("ctl_view_rawbase")]
+    res = analyse(mod, rep, select=sel)
+    got = viewflat_scan(mod, res, D)
+    for n in sel:
+        want_bad = n == "ctl_view_rawbase"
+        if n not in got:
+            rep.break_("%s control %s (D=%d) was not analysed" % (fam, n, D))
+        elif bool(got[n]) != want_bad:
+            rep.break_("%s control %s (D=%d): %s" % (fam, n, D, "an unguarded raw traversal of a view is not recognised" if want_bad else
+                                                      "a raw traversal under an accepted guard is reported: " + got[n][0][:200]))
+        else:
+            rep.ok("%s.control:%s#D=%d" % (fam, n, D), fam, None, nontrivial=False)
 
 
 def view_rules(rep, mod, results, tagD):
